@@ -203,3 +203,64 @@ func VerifH_ContextResolution() {
 	verifrt.Reach("C06.accepted-nested", len(dd) >= 2 && dd[len(dd)-1].parent >= 0)
 	verifrt.Reach("C06.accepted", len(dd) >= 1)
 }
+
+// verifShape renders a forest as "kind(parent-position) ..." in pre-order with explicit flags, for comparison.
+func verifShape(roots []*directive.Directive, depth int, out *[]int) {
+	for _, d := range roots {
+		*out = append(*out, directive.VerifKeywordBegin(d)*100+depth)
+		verifShape(d.Children, depth+1, out)
+	}
+}
+
+// VerifH_ContextAfterPaste (C06, "same resolution re-run after macro
+// expansion"): for every accepted macro-free sequence of at most K events
+// (symbolic kinds, parentheses), re-resolving the tree through processPaste
+// reproduces it: same directives, same nesting depth, same order.
+func VerifH_ContextAfterPaste() {
+	k := verifrt.Choice("k", verifrt.Bound("K")) + 1
+	f := fs.NewFile("doc.jst", "0123456789abcdef")
+	core := NewJApiCore(f)
+	n := 0
+	var realErr *jerr.JApiError
+	for i := 0; i < k && realErr == nil; i++ {
+		switch verifrt.Choice("ev", 3) {
+		case evDirective:
+			realErr = core.processCurrentDirective()
+			if realErr != nil {
+				break
+			}
+			kind := directive.Enumeration(verifrt.Int("kind", 0, 29))
+			verifrt.Assume(kind != directive.Macro && kind != directive.Paste)
+			hasPath := verifrt.Bool("hasPath")
+			verifrt.Assume(!hasPath || kind.IsHTTPRequestMethod())
+			core.currentDirective = verifNewDirective(f, n, kind, hasPath)
+			n++
+		case evOpen:
+			verifrt.Assume(core.currentDirective != nil)
+			core.currentDirective.HasExplicitContext = true
+		case evClose:
+			realErr = core.processContextEnd()
+		}
+	}
+	if realErr == nil {
+		realErr = core.processEOF()
+	}
+	if realErr != nil {
+		verifrt.Stop()
+	}
+	je := core.processPaste()
+	verifrt.Assert("C06.after-paste.accepted", je == nil)
+	if je != nil {
+		return
+	}
+	var a, b []int
+	verifShape(core.directives, 0, &a)
+	verifShape(core.directivesWithPastes, 0, &b)
+	verifrt.Assert("C06.after-paste.same-size", len(a) == len(b))
+	if len(a) == len(b) {
+		for i := range a {
+			verifrt.Assert("C06.after-paste.same-tree", a[i] == b[i])
+		}
+	}
+	verifrt.Reach("C06.after-paste.nested", len(a) >= 2)
+}
